@@ -667,7 +667,10 @@ def readmetxt(ra):
 
 def dimensionstxt(ra, firstnmax=5):
     end = min(len(ra), firstnmax)
-    lengths = np.diff(ra._indices[:end], axis=-1).flatten()
+    # use a fresh handle on the index array: ra's own may be held open (by
+    # open_arrays) with a memory map that predates the last append
+    indices = Array(ra._indices.path)
+    lengths = np.diff(indices[:end], axis=-1).flatten()
     if len(ra.atom) > 0:
         astr = str(ra.atom)[1:-1] + ')'
     else:
@@ -678,7 +681,7 @@ def dimensionstxt(ra, firstnmax=5):
     if len(ra) > (firstnmax + 1):
         lines.append('    ...')
     if len(ra) > firstnmax:
-        lastdiff = np.diff(ra._indices[-1], axis=-1)[0]
+        lastdiff = np.diff(indices[-1], axis=-1)[0]
         lines.append(f'    {len(ra)-1}: ({lastdiff}, {astr}')
     return '\n'.join(lines)
 
